@@ -42,10 +42,11 @@ inductive Op where
   | sa  -- ensureGrainProcess, OnActivate fails
   | sp  -- ensureGrainProcess, the publication (plain put) fails
   | d   -- grainPID.deactivate on the process in the local table
+  | t   -- time passes: leased registry records expire (the code as it is writes none)
   deriving Repr, DecidableEq
 
 inductive Res where
-  | ok | own (n : Node) | eact | ereg | none
+  | ok | own (n : Node) | eact | ereg | none | tick
   deriving Repr, DecidableEq
 
 /-- registry log entries (who, what) -/
@@ -151,6 +152,7 @@ def logEv (sh : Sh) (e : HookEv) : Sh := { sh with ev := e :: sh.ev }
 def exec (fix : Bool) (sh : Sh) (t : Thread) : PC → Sh × Thread
   | .opStart =>
     match t.cur with
+    | .t => (sh, finish t .tick)
     | .d =>
       match sh.tbl t.node with
       | none => (sh, finish t .none)
@@ -201,7 +203,7 @@ def exec (fix : Bool) (sh : Sh) (t : Thread) : PC → Sh × Thread
   | .dDel p => (delOff sh t.node p, finish t .ok)
 
 def opName : Op → String
-  | .s => "s" | .sa => "sa" | .sp => "sp" | .d => "d"
+  | .s => "s" | .sa => "sa" | .sp => "sp" | .d => "d" | .t => "t"
 
 def label (t : Thread) : PC → String
   | .opStart => "op:" ++ opName t.cur
